@@ -785,8 +785,10 @@ theorem C05_evalInt_examples :
     isUnsupported (evalInt "7 / 2".toList) = true := by decide +kernel
 
 /-- the general theorem instantiated: `((2 + 3) * (-4))` -/
-example : evalInt "((2 + 3) * (-4))".toList = .value (.leaf (.int (-20))) :=
-  C05_evalInt_correct (.mul (.add (.num 2) (.num 3)) (.neg (.num 4)))
+example : evalInt "((2 + 3) * (-4))".toList = .value (.leaf (.int (-20))) := by
+  have h : render (.mul (.add (.num 2) (.num 3)) (.neg (.num 4))) = "((2 + 3) * (-4))".toList := by decide +kernel
+  rw [← h]
+  exact C05_evalInt_correct _
 
 /-! ## (d) a plain reference takes the referenced value as it is -/
 
